@@ -136,8 +136,10 @@ class Report:
 
     def finish(self, obs):
         findings = load_known_findings()
-        os.makedirs(os.path.join(VERIF, "evidence"), exist_ok=True)
-        os.makedirs(os.path.join(VERIF, "replay"), exist_ok=True)
+        evdir = os.environ.get("VERIF_EVIDENCE_DIR", os.path.join(VERIF, "evidence"))
+        rpdir = os.environ.get("VERIF_REPLAY_DIR", os.path.join(VERIF, "replay"))
+        os.makedirs(evdir, exist_ok=True)
+        os.makedirs(rpdir, exist_ok=True)
         viol, known, undec, crash = [], [], [], []
         canary_bad = []
         nd = [o for o in obs if o["kind"] == "nd"]
@@ -169,7 +171,7 @@ class Report:
             lines.append(f"KNOWN-FINDING: property={self.prop} {o['name']} {o.get('witness_class','')}".rstrip())
         replay_paths = []
         for o in viol:
-            rp = os.path.join(VERIF, "replay", f"{self.prop}.{_safe(o['name'])}.json")
+            rp = os.path.join(rpdir, f"{self.prop}.{_safe(o['name'])}.json")
             with open(rp, "w") as f:
                 json.dump(dict(property=self.prop, obligation=o["name"], functions=o.get("functions", []),
                                function_hashes={k: self.functions.get(k) for k in o.get("functions", [])},
@@ -207,7 +209,7 @@ class Report:
         cov.update(self.extra)
         ev = dict(property_id=self.prop, tier=self.tier, seed=self.seed, level=self.level, coverage=cov,
                   assumptions=self.assumptions, wall_s=round(wall, 2), violations=len(viol))
-        with open(os.path.join(VERIF, "evidence", f"{self.prop}.json"), "w") as f:
+        with open(os.path.join(evdir, f"{self.prop}.json"), "w") as f:
             json.dump(ev, f, indent=1, default=str)
         print(f"[{self.prop}] tier={self.tier} obligations(proof)={len(proof)} discharged={n_dis(proof)} "
               f"bounded={len(bounded)}/{n_dis(bounded)} canaries={cov['canaries_refuted_as_required']}/{cov['canaries']} "
